@@ -916,3 +916,52 @@ def _dump_scalar(v):
 
 def etree_dump(elem):
     return [elem.tag, elem.text, elem.tail, sorted(elem.attrib.items()), [etree_dump(c) for c in elem]]
+
+
+# ---------------------------------------------------------------------------
+# equal-but-distinguishable twins (guards against caches keyed by value equality)
+# ---------------------------------------------------------------------------
+def twin_desc(desc, k=1):
+    """Same description with every unscaled decimal given k more trailing zeros and every date-time moved to
+    another zone at the same instant: all values compare equal to the original's, all are written differently."""
+    from ofxtools import Types
+
+    cls = universe()[desc["cls"]]
+    types = {a: (kind, t) for a, kind, t in decl(cls)}
+    changed = [0]
+
+    def tw(v, t):
+        if isinstance(t, Types.ListElement):
+            t = t.converter
+        if v[0] == "dec" and isinstance(t, Types.Decimal) and t.scale is None:
+            txt = v[1]
+            changed[0] += 1
+            return ["dec", txt + ("0" * k if "." in txt else "." + "0" * k)]
+        if v[0] == "dt":
+            a = untag(v)
+            off2 = 330 if v[8] != 330 else -300
+            b = a.astimezone(dt.timezone(dt.timedelta(minutes=off2)))
+            if 1900 <= b.year <= 2200:
+                changed[0] += 1
+                return ["dt", b.year, b.month, b.day, b.hour, b.minute, b.second, b.microsecond, off2, v[9]]
+        return v
+
+    kw = {}
+    for a, v in desc["kw"].items():
+        kind, t = types[a]
+        if is_scalar(v):
+            kw[a] = tw(v, t)
+        else:
+            sub, n = twin_desc(v, k)
+            changed[0] += n
+            kw[a] = sub
+    lst = []
+    le = list_elem(cls)
+    for m in desc["list"]:
+        if is_scalar(m):
+            lst.append(tw(m, le[1]) if le else m)
+        else:
+            sub, n = twin_desc(m, k)
+            changed[0] += n
+            lst.append(sub)
+    return {"cls": desc["cls"], "kw": kw, "list": lst}, changed[0]
